@@ -57,6 +57,22 @@ class VPath(PurePosixPath):
     def is_file(self):
         return self.exists()
 
+    def stat(self):
+        """modification time = one arbitrary integer per file (created on first use): the order of the time stamps of
+        leftovers, inputs and files written by the run is unconstrained"""
+        import z3
+        if not self.exists():
+            raise FileNotFoundError(str(self))
+        mt = FS.cur.__dict__.setdefault("mtimes", {})
+        if str(self) not in mt:
+            mt[str(self)] = core.SNum(z3.Int("mtime_%d" % len(mt)))
+
+        class _St:
+            st_mtime = mt[str(self)]
+            st_mtime_ns = mt[str(self)]
+            st_size = 1
+        return _St()
+
     def mkdir(self, *a, **k):
         pass
 
@@ -269,6 +285,45 @@ def read_csv(file_name, sep="\t", index_col=False, nrows=None, usecols=None, chu
         for pos in range(0, len(df), cs):
             yield parse(df.iloc[pos:pos + cs])
     return gen()
+
+
+class _TextOut:
+    """plain open(path, "w") on a VFS table path: the text that is written becomes the file. Only a header line is
+    modelled - it is parsed the way pandas.read_csv parses it (csv rules: a field wrapped in double quotes is unquoted,
+    the separator inside quotes does not split), giving an empty table with those column names."""
+
+    def __init__(self, path, sep="\t"):
+        self.path, self.sep, self.buf = path, sep, []
+
+    def write(self, text):
+        self.buf.append(str.__str__(text) if isinstance(text, str) else str(text))
+        return len(self.buf[-1])
+
+    def close(self):
+        import csv
+        from . import sympd
+        text = "".join(self.buf)
+        lines = text.split("\n")
+        if lines and lines[-1] == "":
+            lines.pop()
+        if len(lines) != 1:
+            raise Unsupported("text written to a VFS table other than one header line: %r" % (text[:60],))
+        names = next(csv.reader([lines[0]], delimiter=self.sep))
+        put(self.path, sympd.DataFrame({c: [] for c in names}))
+
+    def __enter__(self):
+        return self
+
+    def __exit__(self, *a):
+        self.close()
+        return False
+
+
+def open_text(path, mode="r", *a, **k):
+    """builtin open() of the VFS-based modules"""
+    if "w" in mode and "b" not in mode:
+        return _TextOut(VPath(str(path)))
+    raise Unsupported("open(%r, %r) on the VFS" % (str(path), mode))
 
 
 class RawText:
